@@ -127,20 +127,34 @@ def sem_sib_codes(ck: Checker, den: Denotations, rule='C01.SEM-SIB'):
         ck.check(k.value == want, rule, um, k, f'gate type for arithmetic code {k.value} computes that table',
                  f'code {k.value} maps to {t}, whose table is {want}', construct=f'binary_tt_to_type[{k.value}] = {t}')
     ck.check(len(keys) == 16, rule, um, d, 'binary_tt_to_type has all 16 codes', f'{len(keys)} distinct keys', construct='binary_tt_to_type keys')
-    # add_gate_from_tt passes (left, right) in order and the looked-up type
+    # add_gate_from_tt: the gate it adds computes the function its code spells, of (left, right) in that order -- folded for all
+    # 16 codes on a model circuit (distinct operands and the same operand twice); how the call is written does not matter
+    from ..gadgets import GadgetBench
+    from ..interp import InterpRaise
     f = um.func('add_gate_from_tt')
-    calls = [c for c in calls_in(f, 'emplace_gate')]
-    good = False
-    if len(calls) == 1:
-        kw = {k.arg: k.value for k in calls[0].keywords}
-        pos = calls[0].args
-        gt = kw.get('gate_type', pos[1] if len(pos) > 1 else None)
-        opsn = kw.get('operands', pos[2] if len(pos) > 2 else None)
-        p = [a.arg for a in f.args.args]
-        good = gt is not None and opsn is not None and norm(gt) == f'binary_tt_to_type[{p[3]}]' and norm(opsn) == f'({p[1]}, {p[2]})'
-    ck.check(good, rule, um, f, 'add_gate_from_tt builds binary_tt_to_type[code] over (left, right) in that order',
-             'emplace_gate call does not pass gate_type=binary_tt_to_type[operation], operands=(left, right)', construct='add_gate_from_tt emplace_gate')
-
+    B = GadgetBench(repo, den)
+    probs = []
+    for code in [''.join(bits) for bits in itertools.product('01', repeat=4)]:
+        for same in (False, True):
+            c, names = B.host(2)
+            left, right = names[0], (names[0] if same else names[1])
+            try:
+                lab = B.run(UTILS, 'add_gate_from_tt', c, left, right, code)
+            except InterpRaise as e:
+                probs.append(f'add_gate_from_tt(c, {left}, {right}, {code!r}) raises {e.exc_name}')
+                continue
+            if lab not in c._gates:
+                probs.append(f'add_gate_from_tt(c, {left}, {right}, {code!r}) returns {lab!r}, which names no gate')
+                continue
+            for i, (a, b) in enumerate(itertools.product((False, True), repeat=2)):
+                if same and a != b:
+                    continue
+                got = c.evaluate(lab, {names[0]: a, names[1]: b})
+                if bool(got) != (code[i] == '1'):
+                    probs.append(f'the gate added for code {code} over ({left}, {right}) gives {int(bool(got))} on ({int(a)}, {int(b)})')
+                    break
+    ck.check(not probs, rule, um, f, 'add_gate_from_tt adds, for each of the 16 codes, a gate computing that table of (left, right) in that order (operands distinct and identical)',
+             '; '.join(probs[:3]), construct='add_gate_from_tt over all codes')
 
 def apply_rules(ck: Checker, rule='C01.APPLY', covered_by='C01.EVAL (fold of the evaluators over model circuits)'):
     """Shape of the evaluators in circuit.py.  These rules state the structure for every circuit, but they only know one
